@@ -136,7 +136,7 @@ func H_C13_NodeField() {
 	k := rt.Bound("K", 1, 2)
 	n1, n2 := c13pair(f, k)
 	same := fieldSame(n1, n2, f)
-	rt.Region("valueNotPlainWord", rt.Or(fieldSep(n1, f), fieldSep(n2, f)))
+	plainRegion(rt.Or(fieldSep(n1, f), fieldSep(n2, f)))
 	eq := n1.Equal(n2)
 	rt.Assert(rt.Implies(same, eq), "C13.node.samecontent."+nodeFieldNames[f])
 	rt.Assert(rt.Implies(eq, same), "C13.node.discriminates."+nodeFieldNames[f])
@@ -176,7 +176,7 @@ func H_C13_NodePair() {
 	fillField(n1, scalars[j], "x", 1)
 	fillField(n2, scalars[i], "y", 1)
 	fillField(n2, scalars[j], "y", 1)
-	rt.Region("valueNotPlainWord", rt.Or(fieldSep(n1, scalars[i]), fieldSep(n1, scalars[j]), fieldSep(n2, scalars[i]), fieldSep(n2, scalars[j])))
+	plainRegion(rt.Or(fieldSep(n1, scalars[i]), fieldSep(n1, scalars[j]), fieldSep(n2, scalars[i]), fieldSep(n2, scalars[j])))
 	rt.Assert(rt.Implies(n1.Equal(n2), rt.And(fieldEq(n1, n2, scalars[i]), fieldEq(n1, n2, scalars[j]))), "C13.node.general")
 }
 
@@ -205,7 +205,7 @@ func H_C13_Edge() {
 	t := rt.Bound("TE", 1, 2)
 	e1, e2 := symEdge("x", t), symEdge("y", t)
 	c1, c2 := &sbom.Edge{From: e1.From, Type: e1.Type, To: cloneStrs(e1.To)}, &sbom.Edge{From: e2.From, Type: e2.Type, To: cloneStrs(e2.To)}
-	rt.Region("valueNotPlainWord", rt.Or(edgeSep(e1), edgeSep(e2)))
+	plainRegion(rt.Or(edgeSep(e1), edgeSep(e2)))
 	eq := e1.Equal(e2)
 	rt.Assert(rt.Implies(edgeSame(c1, c2), eq), "C13.edge.samecontent")
 	rt.Assert(rt.Implies(eq, edgeSame(c1, c2)), "C13.edge.discriminates")
@@ -258,7 +258,7 @@ func H_C13_List() {
 			sep = rt.Or(sep, edgeSep(e))
 		}
 	}
-	rt.Region("valueNotPlainWord", sep)
+	plainRegion(sep)
 	// node ids are unique inside each list (the comparison indexes nodes by id)
 	rt.Assume(rt.And(rt.StrsDistinct(ids(a)), rt.StrsDistinct(ids(b))))
 	eq := a.Equal(b)
@@ -304,7 +304,7 @@ func H_C13_ListEdges() {
 	}
 	a, b := mk("a"), mk("b")
 	ca, cb := cloneList(a), cloneList(b)
-	rt.Region("valueNotPlainWord", rt.Or(sepToken(a.Edges[0].From), sepToken(a.Edges[1].From), sepToken(b.Edges[0].From), sepToken(b.Edges[1].From)))
+	plainRegion(rt.Or(sepToken(a.Edges[0].From), sepToken(a.Edges[1].From), sepToken(b.Edges[0].From), sepToken(b.Edges[1].From)))
 	eq := a.Equal(b)
 	rt.Assert(rt.Implies(listSame(ca, cb), eq), "C13.list.samecontent")
 	rt.Assert(rt.Implies(eq, listSame(ca, cb)), "C13.list.discriminates")
